@@ -557,6 +557,24 @@ def generate(repo):
             rows.append(f"({lstr(m.group(1))}, {m.group(2)})")
         return table("applyRederives", "List (String × Bool)", rows, "every `apply` method: is its first statement `self.__attrs_post_init__()`?")
 
+    def define_opts():
+        rows = []
+        for cls, file in [("Debiaser", BASES["Debiaser"]), ("RunningWindowDebiaser", BASES["RunningWindowDebiaser"])] + DEBIASERS:
+            c = find_class(parse(repo, "debias", file), cls)
+            decs = [d for d in c.decorator_list if ast.unparse(d.func if isinstance(d, ast.Call) else d) in ("attrs.define", "attrs.mutable", "attr.s", "attrs.frozen")]
+            if len(decs) != 1:
+                raise Unrecognised(f"{cls}: attrs decorator")
+            d = decs[0]
+            opts = [f"{k.arg}={norm(ast.unparse(k.value))}" for k in d.keywords] if isinstance(d, ast.Call) else []
+            if ast.unparse(d.func if isinstance(d, ast.Call) else d) != "attrs.define":
+                opts.insert(0, "decorator=" + ast.unparse(d.func if isinstance(d, ast.Call) else d))
+            if any(isinstance(n, ast.FunctionDef) and n.name in ("__setattr__", "__getattr__", "__getattribute__") for n in c.body):
+                opts.append("custom-attribute-access")
+            rows.append(f"({lstr(cls)}, {llist(lstr(o) for o in opts)})")
+        return table("defineOptions", "List (String × List String)", rows,
+                     "options of the `@attrs.define(...)` decorator of every class of the hierarchy (attribute assignment converts + validates by default)")
+
+    section("attrs.define", define_opts)
     section("apply", rederive)
     section("has_*", lambda: translate_has(repo))
     out.append("end Gen.Config")
